@@ -36,4 +36,16 @@ META = {
                 "snapshot, in-memory state is lost; a restart before the identity keys became durable legitimately creates a new identity",
         "technique": "deterministic simulation: exhaustive crash-point injection on a simulated disk per seeded workload, recovery oracles",
     },
+    "C15": {
+        "text": "Seeded search over goroutine schedules of the real queue code: the working-tree sources of internal/queue are "
+                "instrumented at check time with scheduling points at every lock, unlock and select (select's choice among ready "
+                "cases is taken from the seed, a non-blocking send only meets a receiver really blocked in the runtime), real "
+                "goroutines are released one at a time inside a synctest bubble. Oracles: no lost wake-up / no deadlock at final "
+                "quiescence decided from scheduler state, cancelled wait returns, all items delivered, history linearizable against "
+                "a FIFO model and a priority-multiset model (porcupine). ~5*10^5 schedules per quick run.",
+        "design_ref": "section 4; section 5, C15",
+        "note": "schedules are explored at instrumented synchronisation points only (code between two points is atomic); sampling, "
+                "the small schedule space is reported by distinct fingerprints, not claimed exhaustive",
+        "technique": "deterministic simulation: seeded cooperative scheduling of real goroutines at injected sync points + porcupine linearizability",
+    },
 }
